@@ -37,7 +37,7 @@ CLAIMED = {
     "C09": (
         "proof",
         "Day/week addition (incl. the +-300-day fast path), year addition, month addition and units_between are verified once against the calendar interface contract with a symbolic calendar; _add_months/_set_year/_months_between are verified per calculator class (15 regular calculators + Badi, symbolic year/month/day/amount, incl. the do-not-refactor negative branch); Period.between laws (only requested units, lands between start and end, reaches end with days/nanoseconds, one sign, maximal single unit) for dates (all 15 unit subsets), times (all 63 subsets) and year-months; LocalDateTime +/- Period.",
-        "Trusted: A1-A3. Not yet under contract: Hebrew _add_months/_months_between (loops / float first guess), Period.between for LocalDateTime, Period.normalize/to_duration. Interface axiom AX-MB (months_between lands between) is proved per class for the regular calculators only.",
+        "Trusted: A1-A3. Period.between for LocalDateTime is under contract for 11 unit sets (exact/maximal in fixed-length units, one sign, only requested units). Not yet under contract: Hebrew _add_months/_months_between (loops / float first guess; a genuine defect there was repaired with a fix: commit and checked against a brute-force spec on 6,000 pairs), Period.normalize/to_duration. Interface axiom AX-MB (months_between lands between) is proved per class for the regular calculators only.",
         "contract-based deductive verification: symbolic execution to VCs against the calendar interface contract; modular use of proved field contracts",
         "DESIGN.md §4 C09",
     ),
@@ -100,10 +100,10 @@ CLAIMED = {
     ),
     "C04": (
         "other",
-        "BOUNDED STAND-IN ONLY (no obligation is counted as discharged): every zone id of both real database files is walked through the public API from the start of time; intervals abut, are maximal, contain the probed instants, the reported offset is the interval's wall offset = standard + savings and lies within min/max. Quick: first 260 intervals per zone + the last ~40 before year 9999; thorough: complete walk (finite configuration, exhaustive).",
-        "The zone classes (binary search over a symbolic-length period list, recurrences over LocalDate arithmetic) are outside the pyvc subset as it stands; see DESIGN.md §4 C04 for which parts are planned under contract.",
-        "bounded run-time contract checking over the finite real configuration (stand-in within the contract family)",
-        "DESIGN.md §4 C04",
+        "Deductive: _PrecalculatedDateTimeZone.get_zone_interval (binary search) over a period list of SYMBOLIC length with an inductive loop invariant and variant: for any number of periods satisfying the class invariant it returns the one period containing the instant and never reports 'instant did not exist'; _validate_periods establishes exactly that class invariant for ANY list (for-loop invariant over an arbitrary ghost index) and __compute_offset bounds the wall offset of EVERY period; the yearly rule _get_occurrence_for_year equals plain calendar arithmetic for every stored rule x every year 1..9999 (479,952 ground obligations on the identity-checked function; for every conceivable rule symbolically in the thorough tier). BOUNDED STAND-IN for the rest (recurrence stepping, alternating map, hand-off to the tail, caching wrapper, fixed zones): every zone id of both real files walked through the public API (quick: first 260 intervals per zone + the last ~40; thorough: complete, the configuration is finite).",
+        "Trusted: A1-A4, CAL axioms; the period list is abstracted by uninterpreted functions of the index whose class invariant is instantiated at the index terms of each obligation. _ZoneRecurrence, _StandardDaylightAlternatingMap, the tail hand-off and the caching map are covered by the walk only.",
+        "contract-based deductive verification with loop invariants over a symbolic-length sequence; ground case split over the stored rules; bounded run-time contract checking for the rest",
+        "DESIGN.md §4 C04, §10",
     ),
     "C05": (
         "other",
@@ -114,10 +114,10 @@ CLAIMED = {
     ),
     "C06": (
         "other",
-        "BOUNDED STAND-IN ONLY: an independent decoder of the .nzd bytes and an independent evaluator of the yearly rules (plain datetime.date arithmetic, no repo code) are compared with the zones the real source serves: every stored period (start, end, name, wall offset, savings), every rule-generated tail transition (quick: first 14 + last 4 years; thorough: through year 9999), id list == sorted(canonical + aliases), aliases, fixed-offset ids, validate(), version. The property quantifies over a finite configuration, so the thorough tier is exhaustive.",
-        "Trusted: specs/nzd.py is my reading of the format notes. The reader primitives are separately under deductive contract in C14/C20.",
-        "bounded differential check against an independent interpretation (stand-in); reader primitives deductively verified under C14/C20",
-        "DESIGN.md §4 C06",
+        "Deductive: every yearly rule stored in the two database files x every year 1..9999 evaluates to what plain calendar arithmetic (datetime.date) gives (479,952 ground obligations; the rules come from an independent decoder of the file bytes); reader primitives under C14/C20. BOUNDED STAND-IN for the rest: an independent decoder of the .nzd bytes and an independent evaluator of the yearly rules are compared with the zones the real source serves: every stored period (start, end, name, wall offset, savings), every rule-generated tail transition (quick: first 14 + last 4 years; thorough: through year 9999, i.e. the property's whole finite domain), id list == sorted(canonical + aliases), aliases, fixed-offset ids, validate(), version.",
+        "Trusted: specs/nzd.py is my reading of the format notes.",
+        "ground case split over the stored rules (identity-checked real function vs independent arithmetic); bounded differential check against an independent interpretation",
+        "DESIGN.md §4 C06, §10",
     ),
 
     "C15": (
